@@ -856,3 +856,13 @@ func (c *Cache[K, V]) VerifRingState(i int) (head, tail uint64, wakeState uint32
 	q := c.shards[i].queue
 	return q.head.Load(), q.tail.Load(), q.wakeState.Load(), len(q.buffer)
 }
+
+// VerifHoldDrain takes (hold) or releases shard i's drain token from the harness, so that SetAsync
+// calls made meanwhile cannot apply inline and go through the ring and applyWriteBatch.
+func (c *Cache[K, V]) VerifHoldDrain(i int, hold bool) {
+	if hold {
+		c.shards[i].drainMu.Lock()
+	} else {
+		c.shards[i].drainMu.Unlock()
+	}
+}
